@@ -7,11 +7,14 @@ import (
 	"encoding/json"
 	"fmt"
 	"os"
+	"strconv"
+	"strings"
 
 	"vh/rt"
 
 	_ "vh/gram"
 	_ "vh/h15"
+	_ "vh/hjson"
 	_ "vh/htree"
 	_ "vh/harith"
 	_ "vh/htrim"
@@ -27,7 +30,65 @@ type request struct {
 	Vectors [][][2]interface{} `json:"vectors"`
 }
 
+// enumerate: replay -enum <harness> -alphabet <bytes> [-ints a,b,c] [-params k=v,...] [-max n]
+func enumerate(args []string) {
+	harness := args[0]
+	alphabet := "ab"
+	ints := []int64{0, 1, 2}
+	params := map[string]int{}
+	max := 0
+	for i := 1; i+1 < len(args); i += 2 {
+		switch args[i] {
+		case "-alphabet":
+			a, err := strconv.Unquote(`"` + args[i+1] + `"`)
+			if err != nil {
+				fmt.Fprintln(os.Stderr, "bad alphabet:", err)
+				os.Exit(2)
+			}
+			alphabet = a
+		case "-ints":
+			ints = nil
+			for _, x := range strings.Split(args[i+1], ",") {
+				v, _ := strconv.ParseInt(x, 10, 64)
+				ints = append(ints, v)
+			}
+		case "-params":
+			for _, kv := range strings.Split(args[i+1], ",") {
+				p := strings.SplitN(kv, "=", 2)
+				if len(p) == 2 {
+					v, _ := strconv.Atoi(p[1])
+					params[p[0]] = v
+				}
+			}
+		case "-max":
+			max, _ = strconv.Atoi(args[i+1])
+		}
+	}
+	f := rt.Lookup(harness)
+	if f == nil {
+		fmt.Fprintln(os.Stderr, "replay: unknown harness", harness)
+		os.Exit(2)
+	}
+	counts := map[string]int{}
+	shown := 0
+	runs := rt.Enumerate(f, params, []byte(alphabet), ints, max, func(vec [][2]interface{}, out rt.Outcome) {
+		counts[out.Result]++
+		if (out.Result == "violation" || out.Result == "panic") && shown < 25 {
+			shown++
+			fmt.Printf("%s %s %s  vec=%v\n", out.Result, out.Assert, out.Detail, vec)
+		}
+	})
+	fmt.Printf("enumerated %d runs: %v\n", runs, counts)
+	if counts["violation"]+counts["panic"] > 0 {
+		os.Exit(1)
+	}
+}
+
 func main() {
+	if len(os.Args) > 2 && os.Args[1] == "-enum" {
+		enumerate(os.Args[2:])
+		return
+	}
 	var req request
 	dec := json.NewDecoder(os.Stdin)
 	dec.UseNumber()
